@@ -28,6 +28,22 @@ _TERMINATORS = (ast.Raise, ast.Return, ast.Continue, ast.Break)
 _COMPLEMENT = {ast.Is: ast.IsNot, ast.IsNot: ast.Is, ast.Eq: ast.NotEq, ast.NotEq: ast.Eq, ast.In: ast.NotIn, ast.NotIn: ast.In}
 
 
+def _effect_free(e) -> bool:
+    if isinstance(e, (ast.Name, ast.Constant)):
+        return True
+    if isinstance(e, ast.Attribute):
+        return _effect_free(e.value)
+    if isinstance(e, ast.UnaryOp):
+        return _effect_free(e.operand)
+    if isinstance(e, ast.BoolOp):
+        return all(_effect_free(v) for v in e.values)
+    if isinstance(e, ast.Compare):
+        return _effect_free(e.left) and all(_effect_free(c) for c in e.comparators)
+    if isinstance(e, ast.BinOp):
+        return _effect_free(e.left) and _effect_free(e.right)
+    return False
+
+
 def _terminates(body) -> bool:
     return bool(body) and isinstance(body[-1], _TERMINATORS)
 
@@ -62,7 +78,10 @@ class _Canon(ast.NodeTransformer):
         if not vals:
             return ast.copy_location(ast.Constant(value=not is_or), n)
         if isinstance(vals[-1], ast.Constant) and isinstance(vals[-1].value, bool) and vals[-1].value == is_or and len(vals) > 1:
-            # `X or True` still evaluates X first; keep the operands but the value is known only if X has no effect: leave as is
+            # `X and False` / `X or True`: X is evaluated first, but when it cannot have an effect (names, attributes,
+            # comparisons and boolean combinations of those) the value is the constant
+            if all(_effect_free(v) for v in vals[:-1]):
+                return ast.copy_location(ast.Constant(value=is_or), n)
             n.values = vals
             return n
         if len(vals) == 1:
